@@ -221,7 +221,7 @@ def run_shapes(ctx):
     ctx.notes["kernel_total"] = i
 
 
-ARG_BASES = ["http://h/a/b", "http://h", "//h", "//u:p@h:81/p.x/?q=1#f", "/a/b", "a", "", "foo:a", "foo://", "http://h/a/", "http://[::1]:0/x.y"]
+ARG_BASES = ["http://h/a/b", "http://h", "//h", "//u:p@h:81/p.x/?q=1#f", "/a/b", "a", "", "foo:a", "foo://", "http://h/a/", "http://[::1]:0/x.y", "http://h/p?a=1&1=a&a=2&%3A=%2F&.=.#a"]
 
 
 def arg_calls(URL, bases, t):
@@ -247,6 +247,11 @@ def arg_calls(URL, bases, t):
     for bi, b in enumerate(bases):
         for m in ("with_scheme", "with_user", "with_password", "with_host", "with_path", "with_query", "extend_query", "update_query", "without_query_params", "with_fragment", "with_name", "with_suffix", "joinpath"):
             out.append((f"{m}@{bi}", lambda b=b, m=m: getattr(b, m)(t)))
+        # the same argument more than once in one call
+        out.append((f"without_query_params(t,t)@{bi}", lambda b=b: b.without_query_params(t, t)))
+        out.append((f"without_query_params(t,x,t)@{bi}", lambda b=b: b.without_query_params(t, "zz", t, "a", "a")))
+        out.append((f"with_query(pairs,dup)@{bi}", lambda b=b: b.with_query([(t, t), (t, t)])))
+        out.append((f"update_query(pairs,dup)@{bi}", lambda b=b: b.update_query([(t, "1"), (t, "2"), ("a", t), ("a", t)])))
         out.append((f"with_path(encoded)@{bi}", lambda b=b: b.with_path(t, encoded=True)))
         out.append((f"with_host(encoded)@{bi}", lambda b=b: b.with_host(t, encoded=True) if False else b.with_host(t)))
         out.append((f"joinpath(encoded)@{bi}", lambda b=b: b.joinpath(t, t, encoded=True)))
